@@ -589,7 +589,7 @@ structure Consistent (defs : List IdxDef) (w : World) : Prop where
   /-- the `_object_ids` entry of a stored object is the key list of its last (re-)indexing -/
   refs_snap : ∀ o, o ∈ w.tab.objs → w.tab.refs o = some (allKeys defs (w.snap o))
   /-- no attribute write since the last (re-)indexing ⇒ that key list is the current one -/
-  fresh : ∀ o, o ∈ w.tab.objs → w.pending o = false → w.snap o = w.cur o
+  fresh : ∀ o, o ∈ w.tab.objs → w.pending o = false → ∀ i, keyResAt (w.snap o) i = keyResAt (w.cur o) i
 
 theorem consistent_init (defs : List IdxDef) : Consistent defs World.init := by
   constructor
@@ -875,5 +875,264 @@ theorem add_err_reason {defs : List IdxDef} {t : Table} {o : ObjId} {rs : List K
         cases kr <;> simp only [resolve] at hres <;> (try split at hres) <;> (try split at hres) <;> simp_all
       · refine Or.inl ⟨he, j, k, (isUnique_of_get hd).mpr hu, ?_, hne⟩
         simp [keysOf, hd, keysOfRes, hres]
+
+/-! ### `add_index` at run time -/
+
+theorem keyResAt_setAt (rs : List KeyRes) (n : Nat) (v : KeyRes) (i : Nat) :
+    keyResAt (setAt rs n v) i = if i = n then v else keyResAt rs i := by
+  induction rs generalizing n i with
+  | nil =>
+    induction n generalizing i with
+    | zero => cases i <;> simp [setAt, keyResAt]
+    | succ n ih =>
+      cases i with
+      | zero => simp [setAt, keyResAt]
+      | succ i =>
+        have := ih i
+        simp only [keyResAt, List.getD_eq_getElem?_getD] at this ⊢
+        simpa [setAt] using this
+  | cons r rs ih =>
+    cases n with
+    | zero => cases i <;> simp [setAt, keyResAt]
+    | succ n =>
+      cases i with
+      | zero => simp [setAt, keyResAt]
+      | succ i =>
+        have := ih n i
+        simp only [keyResAt, List.getD_eq_getElem?_getD] at this ⊢
+        simpa [setAt] using this
+
+theorem keysOf_congr (defs : List IdxDef) (i : Nat) (rs rs' : List KeyRes) (h : keyResAt rs' i = keyResAt rs i) :
+    keysOf defs i rs' = keysOf defs i rs := by
+  simp [keysOf, h]
+
+theorem keysOf_append_lt (defs : List IdxDef) (d : IdxDef) (i : Nat) (rs : List KeyRes) (h : i < defs.length) :
+    keysOf (defs ++ [d]) i rs = keysOf defs i rs := by
+  simp [keysOf, List.getElem?_append_left h]
+
+theorem keysOf_append_eq (defs : List IdxDef) (d : IdxDef) (rs : List KeyRes) :
+    keysOf (defs ++ [d]) defs.length rs = keysOfRes d (keyResAt rs defs.length) := by
+  simp [keysOf]
+
+theorem keysOf_out (defs : List IdxDef) (i : Nat) (rs : List KeyRes) (h : defs.length ≤ i) : keysOf defs i rs = [] := by
+  simp [keysOf, List.getElem?_eq_none h]
+
+theorem allKeysFrom_snoc (D : List IdxDef) (R : List KeyRes) : ∀ m i,
+    allKeysFrom D R (m+1) i = allKeysFrom D R m i ++ (keysOf D (i+m) R).map (fun k => (i+m, k)) := by
+  intro m
+  induction m with
+  | zero => intro i; simp [allKeysFrom]
+  | succ m ih =>
+    intro i
+    rw [allKeysFrom, ih (i+1), allKeysFrom]
+    simp only [List.append_assoc]
+    have : i + 1 + m = i + (m + 1) := by omega
+    rw [this]
+
+theorem allKeysFrom_congr (D D' : List IdxDef) (R R' : List KeyRes) : ∀ m i,
+    (∀ j, i ≤ j → j < i + m → keysOf D' j R' = keysOf D j R) → allKeysFrom D' R' m i = allKeysFrom D R m i := by
+  intro m
+  induction m with
+  | zero => intro i _; rfl
+  | succ m ih =>
+    intro i h
+    rw [allKeysFrom, allKeysFrom, h i (Nat.le_refl _) (by omega), ih (i+1) (fun j h1 h2 => h j (by omega) (by omega))]
+
+/-- the back references after `add_index`: the old ones followed by those of the new index -/
+theorem allKeys_append (defs : List IdxDef) (d : IdxDef) (rs rs' : List KeyRes)
+    (h : ∀ i, i < defs.length → keyResAt rs' i = keyResAt rs i) :
+    allKeys (defs ++ [d]) rs' =
+      allKeys defs rs ++ (keysOfRes d (keyResAt rs' defs.length)).map (fun k => (defs.length, k)) := by
+  simp only [allKeys, List.length_append, List.length_singleton]
+  rw [allKeysFrom_snoc]
+  simp only [Nat.zero_add, keysOf_append_eq]
+  congr 1
+  apply allKeysFrom_congr
+  intro j _ hj
+  rw [keysOf_append_lt _ _ _ _ (by omega)]
+  exact keysOf_congr defs j rs rs' (h j (by omega))
+
+theorem isUnique_append (defs : List IdxDef) (d : IdxDef) (i : Nat) :
+    isUnique (defs ++ [d]) i = if i < defs.length then isUnique defs i else if i = defs.length then (d.kind == .unique) else false := by
+  unfold isUnique
+  by_cases h : i < defs.length
+  · simp [h, List.getElem?_append_left h]
+  · by_cases h2 : i = defs.length
+    · subst h2; simp
+    · have : (defs ++ [d])[i]? = none := List.getElem?_eq_none (by simp; omega)
+      simp [h, h2, this]
+
+/-- the loop of `add_index`: only index `n` grows, every object of `os` is filed under its current keys -/
+theorem addIdxLoop_spec (d : IdxDef) (n : Nat) (cur : ObjId → List KeyRes) : ∀ (os : List ObjId) (t : Table), os.Nodup →
+    (addIdxLoop d n cur os t).1.objs = t.objs ∧ (addIdxLoop d n cur os t).1.refs = t.refs ∧
+    (∀ i k, i ≠ n → (addIdxLoop d n cur os t).1.idx i k = t.idx i k) ∧
+    ((addIdxLoop d n cur os t).2 = none → ∀ k o', ((addIdxLoop d n cur os t).1.idx n k).count o' =
+        (t.idx n k).count o' + if o' ∈ os then (keysOfRes d (keyResAt (cur o') n)).count k else 0) ∧
+    (d.kind = .unique → (∀ k, (t.idx n k).length ≤ 1) → ∀ k, ((addIdxLoop d n cur os t).1.idx n k).length ≤ 1) := by
+  intro os
+  induction os with
+  | nil => intro t _; simp [addIdxLoop]
+  | cons o os ih =>
+    intro t hnd
+    have hnd' := List.nodup_cons.mp hnd
+    unfold addIdxLoop
+    split
+    · refine ⟨rfl, rfl, fun _ _ _ => rfl, fun h => by simp at h, fun _ h => h⟩
+    · rename_i t' ks hk
+      obtain ⟨hks, ho, hr, hidx, hun⟩ := mkKeys_ok hk
+      obtain ⟨io, ir, iother, icnt, iun⟩ := ih t' hnd'.2
+      refine ⟨by rw [io, ho], by rw [ir, hr], ?_, ?_, ?_⟩
+      · intro i k hi
+        rw [iother i k hi, hidx i k, count_map_pair]
+        simp [hi]
+      · intro he k o'
+        rw [icnt he k o', hidx n k, List.count_append, count_map_pair, count_replicate_obj]
+        simp only [if_true, List.mem_cons]
+        by_cases e : o' = o
+        · subst e
+          simp [hnd'.1, hks]
+        · simp [e]
+      · intro hu h k
+        exact iun hu (fun k => hun hu k (h k)) k
+
+
+
+
+
+theorem insertByPos_perm (order : List ObjId) (a : ObjId) : ∀ l, (insertByPos order a l).Perm (a :: l) := by
+  intro l
+  induction l with
+  | nil => exact List.Perm.refl _
+  | cons b l ih =>
+    unfold insertByPos
+    split
+    · exact List.Perm.refl _
+    · exact ((List.Perm.cons b ih).trans (List.Perm.swap a b l))
+
+theorem iterOrder_perm (objs order : List ObjId) : (iterOrder objs order).Perm objs := by
+  induction objs with
+  | nil => exact List.Perm.refl _
+  | cons a l ih =>
+    unfold iterOrder
+    exact (insertByPos_perm order a _).trans (List.Perm.cons a ih)
+
+theorem Consistent.idx_out {defs : List IdxDef} {w : World} (h : Consistent defs w) (i : Nat) (hi : defs.length ≤ i)
+    (k : Key) : w.tab.idx i k = [] := by
+  apply List.eq_nil_iff_forall_not_mem.mpr
+  intro o hm
+  have := h.count_scan i k o
+  rw [keysOf_out _ _ _ hi] at this
+  have hpos := List.count_pos_iff.mpr hm
+  have h0 : (w.tab.idx i k).count o = 0 := by rw [this]; split <;> simp
+  omega
+
+theorem Consistent.refs_out {defs : List IdxDef} {w : World} (h : Consistent defs w) (o : ObjId) (hm : o ∈ w.tab.objs)
+    (i : Nat) (hi : defs.length ≤ i) (k : Key) : ((w.tab.refs o).getD []).count (i, k) = 0 := by
+  rw [h.refs_snap o hm, Option.getD_some, allKeys_count, keysOf_out _ _ _ hi]; rfl
+
+/-- `add_index` on a populated table: accepted ⇒ the table is consistent for the extended list of index definitions;
+rejected ⇒ nothing has changed -/
+theorem addIndex_spec {defs : List IdxDef} {w : World} (h : Consistent defs w) (d : IdxDef) (order : List ObjId) :
+    ((addIndex defs w d order).2 = none → Consistent (defs ++ [d]) (addIndex defs w d order).1) ∧
+    (∀ e, (addIndex defs w d order).2 = some e → (addIndex defs w d order).1 = w) := by
+  unfold addIndex
+  dsimp only
+  have hperm := iterOrder_perm w.tab.objs order
+  have hnd : (iterOrder w.tab.objs order).Nodup := hperm.nodup_iff.mpr h.tinv.objsNodup
+  have hmem : ∀ o, o ∈ iterOrder w.tab.objs order ↔ o ∈ w.tab.objs := fun o => hperm.mem_iff
+  have spec := addIdxLoop_spec d defs.length w.cur (iterOrder w.tab.objs order) w.tab hnd
+  generalize addIdxLoop d defs.length w.cur (iterOrder w.tab.objs order) w.tab = r at spec ⊢
+  obtain ⟨t, e⟩ := r
+  obtain ⟨so, sr, sother, scnt, sun⟩ := spec
+  simp only at so sr sother scnt sun
+  cases e with
+  | some e =>
+    refine ⟨fun he => (by cases he), fun e' _ => ?_⟩
+    have : ({ t with idx := fun i k => if i = defs.length then [] else t.idx i k } : Table) = w.tab := by
+      apply Table.ext'
+      · exact so
+      · intro i k
+        by_cases hi : i = defs.length
+        · simp [hi, h.idx_out defs.length (Nat.le_refl _) k]
+        · simp [hi, sother i k hi]
+      · intro o; simp [sr]
+    simp only [this]
+  | none =>
+    have scnt := scnt rfl
+    refine ⟨fun _ => ?_, fun e he => (by cases he)⟩
+    constructor
+    · constructor
+      · intro i k o
+        simp only [hmem, so, sr]
+        by_cases hm : o ∈ w.tab.objs
+        · simp only [hm, if_true, Option.getD_some, List.count_append, count_map_pair]
+          by_cases hi : i = defs.length
+          · rw [hi, scnt k o]
+            simp [hmem, hm, h.idx_out defs.length (Nat.le_refl _) k, h.refs_out o hm defs.length (Nat.le_refl _) k]
+          · rw [sother i k hi]
+            have := h.tinv.count_eq i k o
+            simp [hm] at this
+            simp [hi, this]
+        · simp only [hm, if_false]
+          by_cases hi : i = defs.length
+          · rw [hi, scnt k o]
+            simp [hmem, hm, h.idx_out defs.length (Nat.le_refl _) k]
+          · rw [sother i k hi]
+            have := h.tinv.count_eq i k o
+            simpa [hm] using this
+      · intro o
+        simp only [hmem, so, sr]
+        by_cases hm : o ∈ w.tab.objs
+        · simp [hm]
+        · simp [hm, (h.tinv.refs_none o).mpr hm]
+      · simp only [so]; exact h.tinv.objsNodup
+      · intro i k hu
+        rw [isUnique_append] at hu
+        by_cases hi : i < defs.length
+        · simp only [hi, if_true] at hu
+          rw [sother i k (by omega)]; exact h.tinv.uniq i k hu
+        · by_cases hi2 : i = defs.length
+          · rw [hi2] at hu
+            simp at hu
+            rw [hi2]
+            exact sun hu (fun k => by simp [h.idx_out defs.length (Nat.le_refl _) k]) k
+          · simp [hi, hi2] at hu
+    · intro o ho
+      simp only [so] at ho
+      simp only [hmem, ho, if_true, sr, h.refs_snap o ho, Option.getD_some]
+      rw [allKeys_append defs d (w.snap o)]
+      · simp [keyResAt_setAt]
+      · intro i hi
+        rw [keyResAt_setAt]; simp [Nat.ne_of_lt hi]
+    · intro o ho hp i
+      simp only [so] at ho
+      simp only at hp
+      rw [keyResAt_setAt]
+      by_cases hi : i = defs.length
+      · simp [hi]
+      · simp [hi, h.fresh o ho hp i]
+
+theorem xstep_consistent {x : XWorld} (h : Consistent x.defs x.w) (op : XOp) :
+    Consistent (xstep x op).1.defs (xstep x op).1.w := by
+  cases op with
+  | op o => exact step_consistent h o
+  | addIndex d order =>
+    have hs := addIndex_spec h d order
+    simp only [xstep]
+    generalize addIndex x.defs x.w d order = r at hs
+    obtain ⟨w', e⟩ := r
+    cases e with
+    | none => exact hs.1 rfl
+    | some e => have := hs.2 e rfl; simp only at this; subst this; exact h
+
+theorem xrun_consistent (defs : List IdxDef) (ops : List XOp) : Consistent (xrun defs ops).defs (xrun defs ops).w := by
+  unfold xrun
+  suffices ∀ (ops : List XOp) (x : XWorld), Consistent x.defs x.w →
+      Consistent (ops.foldl (fun x op => (xstep x op).1) x).defs (ops.foldl (fun x op => (xstep x op).1) x).w from
+    this ops _ (consistent_init defs)
+  intro ops
+  induction ops with
+  | nil => intro x h; exact h
+  | cons op ops ih => intro x h; exact ih _ (xstep_consistent h op)
 
 end Sdc.Multikey
